@@ -1,22 +1,6 @@
-mod ast;
-mod bytecode;
-mod dbgparse;
-mod diff;
-mod difftest;
-mod engine;
-mod gen;
-mod printer;
-mod refint;
-mod lattice;
-mod minimize;
-mod props;
-mod report;
-mod shapes;
-mod tape;
-mod transform;
-mod verifier;
 
-use report::*;
+use nlv::report::*;
+use nlv::{engine, props};
 
 fn usage() -> ! {
     eprintln!("usage: nlv <C01..C17> [--tier quick|thorough] [--replay <file>]");
